@@ -60,9 +60,23 @@ def preludeCase (w : List String) : Option String :=
   | ["trim", s] => some (out (showInts (trim (csvInts s))) none)
   | _ => none
 
+/-- `R:<fn> …`: the input is a *range object* used twice: a range is a value, so both uses see the same elements. -/
+def twice (r : String) : String :=
+  match r.splitOn " trace=" with
+  | [res, tr] => s!"{res}|{(res.drop 4).toString} trace={tr}|{tr}"
+  | _ => s!"{r}|{(r.drop 4).toString}"
+
 def preludeLine (line : String) : String :=
-  match preludeCase (words line) with
-  | some r => s!"model={r}\tspec={r}"
-  | none => "bad-op"
+  match words line with
+  | f :: rest =>
+    if f.startsWith "R:" then
+      (match preludeCase ((f.drop 2).toString :: rest) with
+       | some r => let t := twice r; s!"model={t}\tspec={t}"
+       | none => "bad-op")
+    else
+      (match preludeCase (f :: rest) with
+       | some r => s!"model={r}\tspec={r}"
+       | none => "bad-op")
+  | _ => "bad-op"
 
 end ChaiVerif.Drv
